@@ -779,11 +779,6 @@ impl TypeLayout {
             Self::Optional(Some(ty)) => ty.can_be_hashed(),
             Self::List(ListType::Open(ty)) => ty.can_be_hashed(),
             Self::List(ListType::Mixed(types)) => types.iter().all(|ty| ty.can_be_hashed()),
-            // an object is hashed field by field
-            Self::Class(class_type) => class_type
-                .fields()
-                .iter()
-                .all(|field| field.ty().map_or(true, |ty| ty.can_be_hashed())),
             _ => true,
         }
     }
